@@ -9,6 +9,11 @@ import SJ.Drv.C20
 import SJ.Drv.C05
 import SJ.Drv.C03
 import SJ.Drv.C17
+import SJ.Drv.C08
+import SJ.Drv.C15
+import SJ.Drv.C16
+import SJ.Drv.C04
+import SJ.Drv.Typed
 import SJ.Drv.C07
 /-!
 `sjdriver` — reads case lines `op args… => impl-observation` on stdin, runs the Lean model and the
@@ -32,6 +37,11 @@ def allHandlers : List (String × Handler) :=
     C05.handlers,
     C03.handlers,
     C17.handlers,
+    C08.handlers,
+    C15.handlers,
+    C16.handlers,
+    C04.handlers,
+    Typed.handlers,
     C07.handlers,
   ]
 
